@@ -765,6 +765,9 @@ impl<T: Qcow2IoOps> Qcow2Dev<T> {
 
     /// Write data in `buf` to the virtual `offset` of this qcow2 image
     pub async fn write_at(&self, buf: &[u8], offset: u64) -> Qcow2Result<()> {
+        // see data_io_lock
+        let _data_io = self.data_io_lock.read().await;
+
         self.__write_at(buf, offset).await
     }
 }
